@@ -52,6 +52,19 @@ termination_by l => l.length
 
 def normPieces (l : List (List (Pt Q))) : List (List (Pt Q)) := l.map fun p => dropCollinear (dedup p)
 
+/-- consecutive points closer than 1e-9 are merged (for results affected by rounding) -/
+def dedupApprox (ps : List (Pt Q)) : List (Pt Q) :=
+  let near (a b : Pt Q) : Bool := (a.x - b.x).abs ≤ (1 : Q) / 1000000000 && (a.y - b.y).abs ≤ (1 : Q) / 1000000000
+  match ps with
+  | [] => []
+  | p :: rest =>
+    let rec go (prev : Pt Q) : List (Pt Q) → List (Pt Q)
+      | [] => []
+      | q :: t => if near q prev then go prev t else q :: go q t
+    p :: go p rest
+
+def normPiecesApprox (l : List (List (Pt Q))) : List (List (Pt Q)) := l.map fun p => dropCollinear (dedupApprox p)
+
 /-! ### the specification: Liang–Barsky per segment, exact -/
 
 /-- closed / open intersection of `{a + t(b-a) | t ∈ [0,1]}` with the box, as a parameter interval -/
@@ -174,7 +187,7 @@ def handleLine (inp out : Toks) : String :=
              let mN := normPieces l
              if !(mN == spec || (isOpen && strip mN == spec)) then "propfail exact-model-vs-spec"
              -- … and the float result is judged with a 1e-9 tolerance
-             else judge (normPieces outq) false)
+             else judge (normPiecesApprox outq) false)
       | _, _, _ => "skip non-finite"
 
 def handle (ts : Toks) : String :=
